@@ -177,6 +177,16 @@ def run(rep, tier):
                 add("compound", op, "int", a, b, m,
                     f'(call "(a: int, b: int) -> any {{ c := mut a; r := (c {SYM[op]}= b); return (r, *c); }}" (i {a}) (i {b}))',
                     sp)
+            # mixed forms: one operand is a literal (the folding pass has special arms for a constant
+            # right operand), the other one arrives at run time
+            add("rhs-literal", op, "int", a, b, m,
+                f'(call "(a: int) -> any {{ return a {SYM[op]} {lit_int(b)}; }}" (i {a}))', sp)
+            add("lhs-literal", op, "int", a, b, m,
+                f'(call "(b: int) -> any {{ return {lit_int(a)} {SYM[op]} b; }}" (i {b}))', sp)
+            if op in ASSIGNABLE:
+                add("compound-rhs-literal", op, "int", a, b, m,
+                    f'(call "(a: int) -> any {{ c := mut a; r := (c {SYM[op]}= {lit_int(b)}); return (r, *c); }}" (i {a}))',
+                    sp)
     fpairs = [(a, b) for a in fg for b in fg]
     for _ in range(nrand // 2):
         fpairs.append((rnd.getrandbits(64), rnd.getrandbits(64)))
@@ -237,7 +247,7 @@ def run(rep, tier):
         got = norm(io[k])
         exp_m = mo[model_cases[k]]
         exp_s = ("ok " + spec[1]) if spec[0] == "ok" else ("err " + spec[1])
-        if form == "compound":
+        if form.startswith("compound"):
             if exp_m.startswith("ok "):
                 exp_m = f"ok (tup {exp_m[3:]} {exp_m[3:]})"
             if exp_s.startswith("ok "):
